@@ -19,7 +19,10 @@
    A contract call is a SCRIPT: a flat list of instructions run by a frame
    stack machine that follows pushFrame/popFrame (snapshot on entry, Reset on
    failure, log / BTP buffers merged into the parent on success, step
-   accounting per frame).  No proofs in this file. *)
+   accounting per frame).  The scripted contract has two flavours (t_async):
+   synchronous nested calls (cc.Call: a callee's Timeout is a caught failure) and
+   asynchronous ones (cc.OnCall / waitResult: a Timeout at any depth takes the
+   cleanUpFrames(target) path and ends the whole call).  No proofs in this file. *)
 From Coq Require Import List NArith ZArith Bool.
 Import ListNotations.
 Open Scope Z_scope.
